@@ -473,7 +473,8 @@ def _get_Hamiltonian_from_couplings(model, sparse: bool, undo_sort_charge: bool)
     for s, terms in zip(term_list.strength, term_list.terms):
         last_site = -1
         t = eye_0
-        for op, i in terms:
+        # ascending sites (e.g. centered exponentially decaying terms list the central operator first)
+        for op, i in sorted(terms, key=lambda op_i: op_i[1]):
             sites_since_last_op = range(last_site + 1, i)
             if len(sites_since_last_op) > 0:
                 t = kron(t, np.eye(np.prod([dims[n] for n in sites_since_last_op])))
